@@ -670,11 +670,36 @@ func init() {
 			if json.Unmarshal(drv, &d) != nil || d.Out == nil {
 				return core.Disagree("malformed exchange: " + string(drv))
 			}
+			// the model is the specification here (`validate_iff`): the structural rules are decided on the real outcome
 			if len(d.Alts) == 0 {
+				if core.Class(real) == "err" {
+					var e struct {
+						Err string `json:"err"`
+					}
+					json.Unmarshal(real, &e)
+					return core.Fail("validate:rejected-valid-tree:"+e.Err, fmt.Sprintf("validation.Validate rejects (%s) a tree in which every checked node satisfies its rule", e.Err))
+				}
 				if core.Class(real) != "ok" {
 					return core.Disagree(fmt.Sprintf("model accepts, real: %s", real))
 				}
 				return nil
+			}
+			if core.Class(real) == "ok" {
+				onlyErrs, first := true, ""
+				for _, a := range d.Alts {
+					if core.Class(a) != "err" {
+						onlyErrs = false
+					} else if first == "" {
+						var e struct {
+							Err string `json:"err"`
+						}
+						json.Unmarshal(a, &e)
+						first = e.Err
+					}
+				}
+				if onlyErrs {
+					return core.Fail("validate:accepted-invalid-tree:"+first, fmt.Sprintf("validation.Validate = nil on a tree that breaks a structural rule (%s)", first))
+				}
 			}
 			for _, a := range d.Alts {
 				if core.CanonEqual(real, a) {
